@@ -38,7 +38,7 @@ add("C07", "TLC exhaustive on FieldImmut.tla + replay of TLC behaviours into rea
     "replayed on the real objects and every live field and every operator built from one is compared with its construction snapshot after every "
     "step; a seeded random driver of the real objects is validated against the spec in the other direction.",
     TRUST + "writable aliases created before construction are outside the quantifier.")
-add("C21", "TLC exhaustive on RandomCtx.tla (action properties) + behaviour replay into nifty.cl.random + trace validation of drivers and of the library's own RNG use + ExecStrategy.tla configuration runs",
+add("C21", "TLC exhaustive on RandomCtx.tla (action properties) + behaviour replay into nifty.cl.random + trace validation of drivers, of the library's own RNG use and of the repository's own RNG tests (test_random.py run under the recorder) + ExecStrategy.tla configuration runs",
     "The RNG stack (seed identities, spawn counters, draw positions, open contexts, getState/setState) is specified in RandomCtx.tla; TLC checks that "
     "leaving a context normally or by an exception restores the previous generator exactly, for all histories of <=5/6 operations. TLC behaviours are "
     "replayed on the real module (projection, bit-generator state and reference draws compared); event traces recorded from seeded drivers with real "
